@@ -525,6 +525,26 @@ pub fn run(run: &Run) {
             }
         }
     });
+    // Route B: the same oracle on the CFG the real runner builds from a file, every 3rd expression.
+    {
+        let root = crate::infra::work_dir("c07");
+        let slice: Vec<&(bool, String)> = table.iter().step_by(3).collect();
+        par_each(&slice, |_, (function, e)| {
+            let (form, src) = if *function { ("function", function_with(e)) } else { ("template", template_with(e)) };
+            // The runner needs the instantiated template to exist.
+            let src = format!("{src}template Sub() {{\n    signal input in;\n    signal output out;\n    out <== in;\n}}\n{}", crate::refsem::interp::HELPER_SOURCE);
+            let case = json!({"kind": "table-runner", "expr": e, "form": form});
+            run.watch(&case);
+            let dir = root.join(format!("{:?}", std::thread::current().id()).replace(|c: char| !c.is_ascii_alphanumeric(), ""));
+            run.eval(1);
+            if let Ok(cfg) = pipe::lift_via_runner(&src, &dir, if *function { "f" } else { "T" }, *function, false) {
+                let audit = audit_cfg(&cfg, &field, &src, &case, *function, "/runner");
+                run.add_extra_count("claims_tested_via_runner", audit.claims);
+                run.violations(audit.violations);
+            }
+        });
+        let _ = std::fs::remove_dir_all(&root);
+    }
     run.assume("one-sided oracle: a vanishing finite difference proves nothing; unsound claims whose witness needs values outside the grid are missed");
     run.assume("every signal and component port is an independent indeterminate (signal reads never see earlier assignments)");
 }
@@ -533,6 +553,19 @@ pub fn replay(case: &Value) -> Vec<Violation> {
     let (_, p) = real_primes().into_iter().next().unwrap();
     let field = Field::new(&p);
     match case["kind"].as_str() {
+        Some("table-runner") => {
+            let e = case["expr"].as_str().unwrap_or("in");
+            let function = case["form"].as_str() == Some("function");
+            let src = if function { function_with(e) } else { template_with(e) };
+            let src = format!("{src}template Sub() {{\n    signal input in;\n    signal output out;\n    out <== in;\n}}\n{}", crate::refsem::interp::HELPER_SOURCE);
+            let root = crate::infra::work_dir("c07-replay");
+            let out = match pipe::lift_via_runner(&src, &root, if function { "f" } else { "T" }, function, false) {
+                Ok(cfg) => audit_cfg(&cfg, &field, &src, case, function, "/runner").violations,
+                Err(_) => Vec::new(),
+            };
+            let _ = std::fs::remove_dir_all(&root);
+            out
+        }
         Some("table") => {
             let e = case["expr"].as_str().unwrap_or("in");
             let (src, vary) = if case["form"].as_str() == Some("function") {
